@@ -271,3 +271,11 @@ Definition step (st : state) (ev : event) : state * list out :=
   ({| s_tbl := s_tbl st; s_mtu := mtu;
       s_up := match ev with Down => false | Up => true | _ => s_up st end;
       s_peers := ps |}, o).
+
+(* Round 10.  Two authenticating responses to one initiation of ours — (Sender ra, from ea) and (Sender rb, from eb): the
+   Sender word is outside the Noise transcript, so a copy of the genuine response with another Sender and a recomputed MAC1
+   authenticates too — reach two handshake workers at once.  Exactly one completes the handshake (ConsumeMessageResponse
+   looks at the state again under the write lock); the schedule w says which; the other is refused and leaves no trace. *)
+Definition answer_race (p ra ea rb eb : N) (w : bool) : event :=
+  if w then AnswerHs p rb eb else AnswerHs p ra ea.
+
